@@ -18,12 +18,14 @@ pub enum Build {
     Str(&'static str, &'static str),
     /// name, main file relative to the scratch directory
     File(&'static str, &'static str),
+    /// name, main file, caller-supplied include directory (both relative to the scratch directory)
+    FileWith(&'static str, &'static str, &'static str),
 }
 
 impl Build {
     fn name(&self) -> &'static str {
         match self {
-            Build::Str(n, _) | Build::File(n, _) => n,
+            Build::Str(n, _) | Build::File(n, _) | Build::FileWith(n, _, _) => n,
         }
     }
 }
@@ -73,6 +75,15 @@ pub fn alphabet() -> Vec<Build> {
         Build::Str("undefined-macro-between-two-similar", ".macro wait_us\nnop\n.endm\n.macro wait_ms\nnop\nnop\n.endm\n.macro wait_xs\nnop\n.endm\nwait_ns\n"),
         Build::Str("undefined-symbol-between-similar", ".equ val_a = 1\n.equ val_b = 2\n.set val_d = 4\nval_e: nop\n.def val_f = r16\nldi r16, val_c + val_g\n"),
         Build::Str("many-names-then-failure", many_names()),
+        // a build with a caller-supplied include directory, and text builds whose macro bodies
+        // name files that only that build's search directories hold
+        Build::FileWith("file-with-caller-dir", "c17ext_main.asm", "ext17"),
+        Build::Str("macro-body-includes-file-of-caller-dir", ".macro inc_m\n.include \"c17only.inc\"\n.endm\ninc_m\nnop\n"),
+        Build::Str("macro-body-includes-file-of-includepath-dir", ".macro inc_n\n.include \"c17defs.inc\"\n.endm\ninc_n\nnop\n"),
+        Build::Str("include-of-file-of-caller-dir", ".include \"c17only.inc\"\nnop\n"),
+        // the same message several times among others (a macro that prints, called more than once)
+        Build::Str("messages-repeated-from-macro", ".macro note_m\n.message \"tick\"\nnop\n.endm\n.message \"a\"\nnote_m\n.message \"b\"\nnote_m\n.message \"c\"\n.warning \"d\"\nnote_m\n.message \"e\"\n"),
+        Build::Str("messages-repeated-top-level", ".message \"x\"\n.message \"y\"\n.message \"x\"\n.warning \"z\"\n.message \"w\"\n.message \"v\"\n.message \"y\"\nnop\n"),
     ]
 }
 
@@ -107,6 +118,9 @@ fn write_files(dir: &Path) {
         std::fs::write(dir.join(d).join("sub/c17shared.inc"), format!(".equ shared_k = {}\n.message \"shared {}\"\n", v, d)).unwrap();
         std::fs::write(dir.join(d).join("c17local.inc"), format!("ldi r23, {}\n", v + 1)).unwrap();
     }
+    let _ = std::fs::create_dir_all(dir.join("ext17"));
+    std::fs::write(dir.join("ext17/c17only.inc"), "ldi r24, 0x5e\n").unwrap();
+    std::fs::write(dir.join("c17ext_main.asm"), ".include \"c17only.inc\"\nldi r25, 1\n").unwrap();
     std::fs::write(dir.join("c17main.asm"), ".includepath \"inc\"\n.include \"c17defs.inc\"\nldi r20, from_inc\nldi r21, val\n.message \"from main\"\n").unwrap();
     std::fs::write(dir.join("inc/c17defs.inc"), ".equ from_inc = 7\n.equ val = 9\n.macro m\nldi r17, 3\n.endm\nm\n").unwrap();
 }
@@ -115,6 +129,11 @@ fn run_build(b: &Build, dir: &Path) -> Outcome {
     match b {
         Build::Str(_, s) => sut::build_str(s),
         Build::File(_, f) => sut::build_file(dir.join(f), BTreeSet::new()),
+        Build::FileWith(_, f, d) => {
+            let mut s = BTreeSet::new();
+            s.insert(dir.join(d));
+            sut::build_file(dir.join(f), s)
+        }
     }
 }
 
@@ -156,7 +175,7 @@ pub fn run(tier: Tier) -> i32 {
     let kinds: BTreeSet<String> = reference.iter().map(|v| v["r"].as_str().unwrap_or("").to_string()).collect();
     rep.guard(kinds.contains("ok") && kinds.contains("err"), "the alphabet must contain building and failing programs");
     let distinct_refs: BTreeSet<String> = reference.iter().map(|v| v.to_string()).collect();
-    rep.guard(distinct_refs.len() >= n - 1, "builds of the alphabet must have pairwise different outcomes");
+    rep.guard(distinct_refs.len() + 3 >= n, "builds of the alphabet must have (nearly) pairwise different outcomes");
 
     let evals = AtomicU64::new(0);
     let compare = |which: usize, o: &Outcome, how: &str, context: &dyn Fn() -> Value| {
